@@ -468,6 +468,42 @@ pub fn case(max_len: usize) -> impl Strategy<Value = Case> {
     (prop_oneof![3 => Just(0u8), 1 => 1u8..4], prop_oneof![4 => 1u8..=13, 1 => Just(0u8)], prop::collection::vec(op(), 1..max_len), prop::collection::vec(any::<u16>(), 0..3)).prop_map(|(flush, rotation, ops, truncate_ops)| Case { flush, rotation, ops, truncate_ops, record: true })
 }
 
+// ---- byte decoder for the coverage-guided stage: same shapes and ranges as the strategies above ----------
+pub fn decode(data: &[u8]) -> Option<Case> {
+    use arbitrary::Unstructured;
+    let mut u = Unstructured::new(data);
+    let r: arbitrary::Result<Case> = (|| {
+        let flush = if u.ratio(3u8, 4u8)? { 0 } else { u.int_in_range(1u8..=3)? };
+        let rotation = if u.ratio(4u8, 5u8)? { u.int_in_range(1u8..=13)? } else { 0 };
+        let nt = u.int_in_range(0usize..=2)?;
+        let mut truncate_ops = Vec::new();
+        for _ in 0..nt {
+            truncate_ops.push(u.arbitrary()?);
+        }
+        let n = u.int_in_range(1usize..=23)?;
+        let mut ops = Vec::new();
+        for _ in 0..n {
+            ops.push(match u.int_in_range(0u8..=19)? {
+                0..=9 => Op::Upsert(u.int_in_range(0u8..=5)?, u.arbitrary()?),
+                10..=12 => Op::Delete(u.int_in_range(0u8..=5)?),
+                13 | 14 => {
+                    let m = u.int_in_range(1usize..=4)?;
+                    let mut ch = Vec::new();
+                    for _ in 0..m {
+                        ch.push((u.int_in_range(0u8..=5)?, if u.ratio(4u8, 5u8)? { Some(u.arbitrary()?) } else { None }));
+                    }
+                    Op::Batch(ch, u.ratio(1u8, 5u8)?)
+                }
+                15 | 16 => Op::Checkpoint,
+                17 => Op::CleanReopen,
+                _ => Op::CrashReopen(u.arbitrary()?),
+            });
+        }
+        Ok(Case { flush, rotation, ops, truncate_ops, record: true })
+    })();
+    r.ok()
+}
+
 pub fn check(c: &Case) -> Verdict {
     run_case(c)
 }
